@@ -71,6 +71,7 @@ type Engine struct {
 	curParams []int
 	noIfConv  bool
 	specDepth int
+	pinPartial bool
 	ifSites   map[siteKey]*siteStat
 }
 
